@@ -3,6 +3,9 @@ import OV.Lemmas.C03State
 import OV.Lemmas.C03Uses
 import OV.Lemmas.C04Closed
 import OV.Lemmas.C04Total
+import OV.Lemmas.C04Pipeline
+import OV.Lemmas.C04Order
+import OV.Gen.C04Pipeline
 /-!
 # C04 — `optimize()` is total on valid models; result valid, same interface; overridable
 initializer-inputs are never folded
@@ -313,8 +316,8 @@ theorem fold_ssa_fragmentA (ctx : Ctx) (hnf : ctx.isFunction = false) (info : Li
 /-- **Totality on fragment A** (`fold_total`, one level): for every graph in single-assignment form whose nodes are in
 fragment A, every option tuple, annotation table and oracle table, the model of `FoldConstantsPass` ends without an error
 state: no partial evaluator raises (their index operations are modelled with their Python failure modes),
-`register_initializer` never meets a name that is already registered (the clash the real code raises on, C09-N3's
-family), `replace_node` is never given lists of different lengths, and the model's own step fuel
+`register_initializer` never meets a name that is already registered (no renaming step is ever needed on this fragment;
+since 6fc3d91 a taken name is renamed instead of raising — `fold_step_never_raises`), `replace_node` is never given lists of different lengths, and the model's own step fuel
 (`64 + 16·|nodes| + 16·|uses|`) is never exhausted.  The fuel argument is a rank: an `Identity` node is never replaced, a
 `Cast` only by an `Identity`, any other node by an `Identity` or a `Cast` (`EvShape`), so each node costs at most three
 steps (`visitNodes_total`, invariant `TotA`). -/
@@ -569,6 +572,281 @@ def infoClash : List (Name × VInfo) :=
 `c_unsqueeze_0` / `c_unsqueeze_1`; both are folded without a name clash. -/
 theorem repeated_element_no_nameclash :
     (foldGraph ctxClash infoClash gClash).1.err = none := by
+  decide
+
+/-! ### the whole `optimize_ir` pipeline -/
+
+/-- the folding pass as the pipeline runs it: option values and annotations may differ from call to call -/
+def foldPass (ctxOf : Graph → Ctx) (infoOf : Graph → List (Name × VInfo)) (g : Graph) : Graph × Bool :=
+  ((foldGraph (ctxOf g) (infoOf g) g).2, (foldGraph (ctxOf g) (infoOf g) g).1.modified)
+
+/-- **The interface survives the whole pipeline** (`optimize_ir`: `[Inline]`, then `num_iterations ×` (fold, NameFix when
+modified, rewrite, remove-unused), then remove-unused, lift constants, lift subgraph initializers, deduplicate, CSE,
+OutputFix, NameFix — the order `OV.Model.C03Pass.optimizeIr` restates and `pipeline_order_matches_source` ties to the
+source).  For every option tuple (`num_iterations`, `stop_if_no_change`, `inline`, and any size limits / `should_fold` /
+opset imports / annotations the folding pass is run with, which may change from iteration to iteration): if each
+onnx_ir pass and the rewrite pass keeps the interface (`RelContracts Iface`, the contract A-ir), then the result of the
+pipeline has the same formal inputs in the same order, the same number of outputs, and every initializer that is also a
+formal input — a default the caller may override — still has its initializer.  The folding pass needs no contract: its
+part is `fold_signature` + `overridable_inputs_kept`, for all graphs. -/
+theorem optimize_interface (P : IrPasses) (C : RelContracts Iface P) (ctxOf : Graph → Ctx)
+    (infoOf : Graph → List (Name × VInfo)) (o : OptOpts) (g : Graph) :
+    Iface (optimizeIr P (foldPass ctxOf infoOf) o g) g := by
+  apply optimizeIr_rel Iface Iface.refl (fun h1 h2 => Iface.trans h1 h2) P C
+  intro g1
+  exact ⟨(fold_signature (ctxOf g1) (infoOf g1) g1).1, (fold_signature (ctxOf g1) (infoOf g1) g1).2,
+    fun x hx hi => overridable_inputs_kept (ctxOf g1) (infoOf g1) g1 x hx hi⟩
+
+/-- passes that really change the graph and satisfy the contracts: remove-unused drops `Identity` nodes, constant lifting
+adds an initializer, NameFix renames nothing here -/
+def demoPasses : IrPasses :=
+  { inline := id, rewrite := fun g => (g, false),
+    dce := fun g => (Graph.mk g.inputs g.inits (g.nodes.filter fun n => n.op != "Dropout") g.outputs, true),
+    liftConstants := fun g => Graph.mk g.inputs (g.inits ++ [("lifted", "t9")]) g.nodes g.outputs,
+    liftSubgraphInits := id, dedup := id, cse := id, outputFix := id, nameFix := id }
+
+/-- non-vacuity of `optimize_interface`: the contracts are satisfiable by passes that are not the identity … -/
+theorem demoPasses_contracts : RelContracts Iface demoPasses :=
+  { inline := fun g => Iface.refl g, rewrite := fun g => Iface.refl g,
+    dce := fun g => ⟨rfl, rfl, fun _ _ h => h⟩,
+    liftConstants := fun g => ⟨rfl, rfl, fun x _ h => by
+      show x ∈ (g.inits ++ [("lifted", "t9")]).map (·.1)
+      rw [List.map_append]
+      exact List.mem_append_left _ h⟩,
+    liftSubgraphInits := fun g => Iface.refl g, dedup := fun g => Iface.refl g, cse := fun g => Iface.refl g,
+    outputFix := fun g => Iface.refl g, nameFix := fun g => Iface.refl g }
+
+/-- … and on `gShapeW` (an overridable `w`, two iterations, the fold fires in the first) the pipeline keeps `x, w` and the
+default of `w` while it rewrites the graph -/
+example :
+    (optimizeIr demoPasses (foldPass (fun _ => ctxW 18) (fun _ => infoShapeW)) ⟨2, true, true⟩ gShapeW).inputs = ["x", "w"] ∧
+    (optimizeIr demoPasses (foldPass (fun _ => ctxW 18) (fun _ => infoShapeW)) ⟨2, true, true⟩ gShapeW).inits.map (·.1) = ["w", "lifted"] ∧
+    (optimizeIr demoPasses (foldPass (fun _ => ctxW 18) (fun _ => infoShapeW)) ⟨2, true, true⟩ gShapeW).nodes.map (·.op) = ["Constant", "Add"] := by
+  decide
+
+/-! ### `visit_function` (commit 26dd9fc): initializers left in a function body -/
+
+theorem foldFunction_eq (ctx : Ctx) (info : List (Name × VInfo)) (g : Graph) :
+    foldFunction ctx info g =
+      if (foldGraph ctx info g).1.err.isSome then foldGraph ctx info g
+      else initsToConstants (foldGraph ctx info g).1 (foldGraph ctx info g).2 := by
+  unfold foldFunction
+  rcases foldGraph ctx info g with ⟨st, g'⟩
+  rfl
+
+/-- **A function body returned by the pass holds no initializer** (they would be dropped when the function is
+serialized): whenever the pass ends without an error, for every option tuple, annotation table and body. -/
+theorem foldFunction_no_initializers (ctx : Ctx) (info : List (Name × VInfo)) (g : Graph)
+    (h : (foldFunction ctx info g).1.err = none) : (foldFunction ctx info g).2.inits = [] := by
+  rw [foldFunction_eq] at h ⊢
+  cases he : (foldGraph ctx info g).1.err.isSome with
+  | false =>
+    simp only [Bool.false_eq_true, if_false]
+    exact initsToConstants_inits _ _
+  | true =>
+    simp only [he, if_true] at h
+    rw [h] at he
+    exact absurd he (by simp)
+
+/-- **A function keeps its signature**: same formal inputs, same number of outputs, for all bodies and option tuples. -/
+theorem foldFunction_signature (ctx : Ctx) (info : List (Name × VInfo)) (g : Graph) :
+    (foldFunction ctx info g).2.inputs = g.inputs ∧ (foldFunction ctx info g).2.outputs.length = g.outputs.length := by
+  rw [foldFunction_eq]
+  split
+  · exact fold_signature ctx info g
+  · have h := initsToConstants_sig (foldGraph ctx info g).1 (foldGraph ctx info g).2
+    have h2 := fold_signature ctx info g
+    exact ⟨h.1.trans h2.1, by rw [h.2]; exact h2.2⟩
+
+/-- **The clean-up keeps the body well-scoped** (full since commit a9715ec; before it the statement needed the hypothesis
+"no output of the body is an initializer that no node reads", see `function_output_initializer_dropped_before_fix`): if
+every node input of the body is an initializer, a formal input, a name of the enclosing scope or an output of an earlier
+node and every output is defined, the same holds after the initializers that are still read **or are outputs of the body**
+have become `Constant` nodes at the top of the body and the others have been dropped.  All bodies, all nesting depths of
+the readers, no side condition. -/
+theorem function_cleanup_closed (st : St) (g : Graph) (sc : List Name) (hcl : GraphClosed sc g) :
+    GraphClosed sc (initsToConstants st g).2 :=
+  initsToConstants_closed st g sc hcl
+
+/-- **The clean-up keeps single assignment**: initializer names and node outputs stay pairwise distinct and no node output
+is a formal input, for bodies none of whose initializers is a formal input (function inputs have no defaults). -/
+theorem function_cleanup_ssa (st : St) (g : Graph) (hssa : SSA g) (hni : ∀ x, x ∈ g.inits.map (·.1) → x ∉ g.inputs) :
+    SSA (initsToConstants st g).2 :=
+  initsToConstants_ssa st g hssa hni
+
+/-- what an inlined `If` leaves in a function body: `u = Add(x, c); r = Mul(u, c)` with the branch's initializer `c`, and a
+second initializer `d` nobody reads -/
+def gBody : Graph :=
+  .mk ["x"] [("c", "t1"), ("d", "t2")]
+    [.mk "Add" "" [some "x", some "c"] ["u"] [] [], .mk "Mul" "" [some "u", some "c"] ["r"] [] []] ["r"]
+
+/-- non-vacuity of `function_cleanup_closed` / `function_cleanup_ssa`: `gBody` satisfies the hypotheses, `c` becomes
+a Constant node, `d` is dropped -/
+example : GraphClosed [] gBody ∧ SSA gBody ∧ (∀ x, x ∈ gBody.inits.map (·.1) → x ∉ gBody.inputs) ∧
+    (initsToConstants {} gBody).2.nodes.map (fun n => (n.op, n.outputs)) = [("Constant", ["c"]), ("Add", ["u"]), ("Mul", ["r"])] := by
+  refine ⟨⟨?_, ?_⟩, ⟨by decide, ?_⟩, ?_, by decide⟩
+  · simp [gBody, ClosedL, Graph.inits, Graph.inputs, Graph.nodes, Node.inputs, Node.outputs]
+  · intro o ho
+    right
+    simp only [gBody, Graph.outputs, List.mem_cons, List.mem_nil_iff, or_false] at ho
+    subst ho
+    exact ⟨.mk "Mul" "" [some "u", some "c"] ["r"] [] [], by simp [gBody, Graph.nodes], by simp [Node.outputs]⟩
+  · intro o ho
+    have : o ∈ ["u", "r"] := ho
+    simp only [List.mem_cons, List.mem_nil_iff, or_false] at this
+    rcases this with rfl | rfl <;> decide
+  · intro x hx
+    have : x ∈ ["c", "d"] := hx
+    simp only [List.mem_cons, List.mem_nil_iff, or_false] at this
+    rcases this with rfl | rfl <;> decide
+
+/-- the body `If(true){ output c, initializer c }` leaves after inlining: no node, the output is the initializer -/
+def gOutInit : Graph := .mk ["x"] [("y", "t1")] [] ["y"]
+
+/-- the clean-up as it was before commit a9715ec: only initializers that some node reads survive -/
+def initsToConstantsBeforeFix (st : St) (g : Graph) : St × Graph :=
+  let live := g.inits.filter fun (x, _) => readsName maxDepth g x
+  if g.inits.isEmpty then (st, g) else
+  (if live.isEmpty then st else { st with modified := true },
+   Graph.mk g.inputs [] (live.map (fun (x, t) => mkNode "Constant" [] [x] [("value", .tensor t)]) ++ g.nodes) g.outputs)
+
+/-- **Regression statement for C04-D13 (fixed by a9715ec).**  The *pre-fix* clean-up did not keep well-scoped bodies
+well-scoped: on `gOutInit` (what inlining `If(true)` with a branch `output = initializer` leaves) it dropped the
+initializer and the output was defined by nothing.  (Until the fix this was the negation of the full statement of
+`function_cleanup_closed`; replayed on the real code as `w_c04d13`, which must now pass.) -/
+theorem function_output_initializer_dropped_before_fix :
+    ¬ (∀ (st : St) (sc : List Name) (g : Graph), GraphClosed sc g → GraphClosed sc (initsToConstantsBeforeFix st g).2) := by
+  intro h
+  have hcl : GraphClosed [] gOutInit := by
+    refine ⟨trivial, ?_⟩
+    intro o ho
+    left
+    have : o = "y" := by simpa [gOutInit, Graph.outputs] using ho
+    subst this
+    simp [gOutInit, Graph.inits, Graph.inputs]
+  have h2 := (h {} [] gOutInit hcl).2 "y" (by simp [initsToConstantsBeforeFix, gOutInit, Graph.inits, Graph.outputs])
+  revert h2
+  simp [initsToConstantsBeforeFix, gOutInit, Graph.inits, Graph.outputs, Graph.inputs, Graph.nodes, readsName, maxDepth]
+
+/-- … and the current clean-up keeps that output defined: the initializer becomes `y = Constant` -/
+theorem function_output_initializer_kept :
+    (initsToConstants {} gOutInit).2.nodes.map (fun n => (n.op, n.outputs)) = [("Constant", ["y"])] ∧
+    (initsToConstants {} gOutInit).2.outputs = ["y"] ∧ (initsToConstants {} gOutInit).2.inits = [] := by
+  decide
+
+/-! ### finding C04-D12: equally named values in sibling branches -/
+
+def tokTrue : CInfo := { tok := "tc", dtype := 9, shape := [], ints := some [1], isZero := some false }
+def tokA : CInfo := { tok := "ta", dtype := 1, shape := [3], ints := none, isZero := none }
+
+def ctxSib : Ctx :=
+  { inLimit := 8192, outLimit := 262144, shouldFold := none, imports := [("", 18)], isFunction := false,
+    toks := [("tc", tokTrue), ("ta", tokA)],
+    oracle := [("Add||18|ta&ta|", .single { tok := "f", dtype := 1, shape := [3], ints := none, isZero := none })] }
+
+/-- `a = Constant; t = Add(a, a); r = Mul(x, t)` -/
+def takenBranch (a t r : Name) : Graph :=
+  .mk [] [] [.mk "Constant" "" [] [a] [("value", .tensor "ta")] [], .mk "Add" "" [some a, some a] [t] [] [],
+             .mk "Mul" "" [some "x", some t] [r] [] []] [r]
+
+def otherBranch (s : Name) : Graph := .mk [] [] [.mk "Neg" "" [some "x"] [s] [] []] [s]
+
+/-- `c = true; y1 = If(c){…t…}{…}; y2 = If(c){…t2…}{…}; y = Add(y1, y2)` — with `t2 = "t"` the two then-branches use the
+same interior name, which sibling scopes may do -/
+def gSibling (t2 : Name) : Graph :=
+  .mk ["x"] []
+    [.mk "Constant" "" [] ["c"] [("value", .tensor "tc")] [],
+     .mk "If" "" [some "c"] ["y1"] [] [("then_branch", takenBranch "a1" "t" "r1"), ("else_branch", otherBranch "s1")],
+     .mk "If" "" [some "c"] ["y2"] [] [("then_branch", takenBranch "a2" t2 "r2"), ("else_branch", otherBranch "s2")],
+     .mk "Add" "" [some "y1", some "y2"] ["y"] [] []] ["y"]
+
+def infoSib : List (Name × VInfo) := [("x", { dtype := some 1, shape := some [.known 3] })]
+
+/-- **The fold step has no error exit** (since commit 6fc3d91, `_make_initializer_name_unique`): for every option tuple,
+state, node and evaluator answer, registering the folded value never fails — a name that is already taken is made free
+first (the folded value is renamed `<n>_<k>`; a graph output keeps its name and the earlier initializer is renamed).
+Before the fix this was false: `register_initializer` raised on a taken name (finding C04-D12; the statement of
+`fold_total_fragmentA` without its fragment hypothesis was refuted by `gSibling "t"`). -/
+theorem fold_step_never_raises (ctx : Ctx) (st : St) (n : Node) (c : CInfo) (m : String) :
+    (emitFold ctx st n c).1 ≠ PRes.error m :=
+  emitFold_no_error ctx st n c m
+
+/-- the condition under which the pre-fix code raised: the display name of the value being folded is a registered name -/
+def clashBeforeFix (st : St) (n : Node) : Bool := st.initDisplay.contains (st.display (n.outputs.headD ""))
+
+/-- `makeRoom` is the whole difference: when the pre-fix code would have raised, the name registered afterwards is a new
+one, not among the registered names -/
+theorem rename_gives_unregistered_name :
+    clashBeforeFix { initDisplay := ["t", "t_1"] } (.mk "Add" "" [] ["t"] [] []) = true ∧
+    (makeRoom { initDisplay := ["t", "t_1"] } "t").display "t" = "t_2" ∧
+    (makeRoom { initDisplay := ["t", "t_1"], gouts := ["t"], initNames := ["e"], dname := [("e", "t")] } "t").display "t" = "t" ∧
+    (makeRoom { initDisplay := ["t", "t_1"], gouts := ["t"], initNames := ["e"], dname := [("e", "t")] } "t").display "e" = "t_2" ∧
+    (makeRoom { initDisplay := ["t", "t_1"], gouts := ["t"], initNames := ["e"], dname := [("e", "t")] } "t").initDisplay = ["t_2", "t_1"] := by
+  decide
+
+/-- **Regression statement for C04-D12 (fixed by 6fc3d91).**  Two `If` nodes with a constant condition whose taken branches
+both fold a value called `t` (sibling scopes may share names): the pass ends without an error, the second registration goes
+through the renaming step and happens under `t_1` (the pre-fix model ended in `register_initializer: name already
+registered` on this very graph; replayed on the real code as `w_c04d12`, which must now pass). -/
+theorem sibling_branches_same_name_fold :
+    (foldGraph ctxSib infoSib (gSibling "t")).1.err = none ∧
+    (foldGraph ctxSib infoSib (gSibling "t")).1.initDisplay = ["t_1", "t"] ∧
+    (foldGraph ctxSib infoSib (gSibling "t")).1.hist.contains "fold:rename" = true := by
+  decide
+
+/-- the same graph with distinct interior names is folded completely, without the renaming step -/
+theorem sibling_branches_distinct_names_fold :
+    (foldGraph ctxSib infoSib (gSibling "u")).1.err = none ∧ (foldGraph ctxSib infoSib (gSibling "u")).2.inits = [("t", "f"), ("u", "f")] ∧
+    (foldGraph ctxSib infoSib (gSibling "u")).1.hist.contains "fold:rename" = false := by
+  decide
+
+/-! ### the pass order: source ↔ model -/
+
+/-- **The modelled pass order is the pass order of the source** (translator tie; `OV.Gen.C04Pipeline` is regenerated from
+`onnxscript/optimizer/_optimizer.py` and `_constant_folding.py` by `harness/c04_extract.py` on every run): the passes of
+the iterated `PassManager`, the passes after it and the `if inline:` prefix are, name by name and in order, the lists
+`loopSpec`, `tailSpec`, `inlineSpec` that `optimizeSpec` interprets; the loop is driven by `num_iterations` /
+`stop_if_no_change`; `optimize_ir` does nothing else with the list; `FoldConstantsPass.call` runs `NameFixPass` itself
+exactly when it modified the model (the `if r1.2 then P.nameFix …` of `iterStep`); the option defaults are `2, True, True`
+(the option tuple of the non-vacuity example).  A pass added, dropped or moved in the source makes this theorem fail. -/
+theorem pipeline_order_matches_source :
+    OV.Gen.C04Pipeline.loopPasses = loopSpec.map PassId.srcName ∧
+    OV.Gen.C04Pipeline.tailPasses = tailSpec.map PassId.srcName ∧
+    OV.Gen.C04Pipeline.prefixPasses = inlineSpec.map PassId.srcName ∧
+    OV.Gen.C04Pipeline.prefixThenRest = true ∧ OV.Gen.C04Pipeline.prefixGuard = "inline" ∧
+    OV.Gen.C04Pipeline.loopSteps = "num_iterations" ∧ OV.Gen.C04Pipeline.loopEarlyStop = "stop_if_no_change" ∧
+    OV.Gen.C04Pipeline.otherStatements = 0 ∧ OV.Gen.C04Pipeline.foldFixesNamesWhenModified = true ∧
+    OV.Gen.C04Pipeline.defaultNumIterations = 2 ∧ OV.Gen.C04Pipeline.defaultStopIfNoChange = true ∧
+    OV.Gen.C04Pipeline.defaultInline = true := by
+  decide +kernel
+
+/-- **The interface survives the pipeline as the source lists it**: `optimize_interface` for the list-driven
+`optimizeSpec` (`optimizeSpec_eq`: interpreting the three lists *is* `optimizeIr`). -/
+theorem optimize_interface_source_order (P : IrPasses) (C : RelContracts Iface P) (ctxOf : Graph → Ctx)
+    (infoOf : Graph → List (Name × VInfo)) (o : OptOpts) (g : Graph) :
+    Iface (optimizeSpec P (foldPass ctxOf infoOf) o g) g := by
+  rw [optimizeSpec_eq]
+  exact optimize_interface P C ctxOf infoOf o g
+
+/-! ### distinct outputs stay distinct -/
+
+/-- **The output loop of `visit_graph` never makes two outputs equal** (`_sym_value_can_replace_graph_output` is
+evaluated against the outputs *as already redirected*): if the outputs of a graph are pairwise distinct and recorded as
+graph outputs in the state, the outputs after the redirection loop are pairwise distinct again — two outputs that copy
+the same interior value are not both redirected to it: the first takes it, the second stays (`out:alreadyoutput`).  For
+every state (symbolic map, node list).  Together with `replaceOutputs_only_aliases` and `fold_signature` this is the
+output half of "the declared outputs keep their names and order". -/
+theorem redirected_outputs_distinct (nodes : List Node) (outs : List Name) (st : St)
+    (hnd : outs.Nodup) (hin : ∀ o, o ∈ outs → o ∈ st.gouts) : (replaceOutputs st nodes outs).2.Nodup :=
+  (replaceOutputs_distinct nodes outs st hnd hin).1
+
+/-- `t = Abs(x); o0 = Identity(t); o1 = Identity(t)`, outputs `o0, o1` -/
+def gTwoCopies : Graph :=
+  .mk ["x"] [] [.mk "Abs" "" [some "x"] ["t"] [] [], .mk "Identity" "" [some "t"] ["o0"] [] [],
+                .mk "Identity" "" [some "t"] ["o1"] [] []] ["o0", "o1"]
+
+/-- non-vacuity: on `gTwoCopies` both outputs are recorded aliases of `t`; only the first is redirected -/
+example : (foldGraph (ctxW 18) [("x", { dtype := some 1, shape := some [.known 3] })] gTwoCopies).2.outputs = ["t", "o1"] := by
   decide
 
 end OV.Props.C04
